@@ -80,9 +80,12 @@ TClosed ==
 TEnd == IsEvent("end") /\ R.h = h /\ EndRun(R.a_sent, R.c_paid, R.ab_open)
 \* the sender refused to build the payment: not a run
 TSkip == IsEvent("skip") /\ UNCHANGED vars
+\* other per-block work of one of B's channels (splice_locked / channel_ready / announcement_signatures
+\* sent by B on this block): not part of the property -- the deadlines stand whatever else a block triggers
+TCo == IsEvent("co") /\ R.h = h /\ UNCHANGED vars
 
 TraceNext == TCase \/ TOffer \/ TShow \/ TForward \/ TClaim \/ TResolve \/ TBcast \/ TBlock \/ TClosed
-             \/ TEnd \/ TSkip \/ TRestart
+             \/ TEnd \/ TSkip \/ TRestart \/ TCo
 
 TraceSpec == TraceInit /\ [][TraceNext]_tvars
 
